@@ -47,6 +47,19 @@ def run_job(job, wd):
                   remove_duplicates=pol, temporary_directory=wd, events_per_temporary_file=job.get("per", 10000000))
         except Exception:       # noqa  (the main call decides)
             pass
+        # ... and once more with the very table OBJECTS of the main call holding other numbers, restored in place
+        # afterwards (whatever a call remembers about a table must not survive a change of its contents)
+        kept = [(da, da.values.copy()) for da in (cv, ov) if da is not None]
+        for da, vals in kept:
+            da.values[...] = vals[::-1] * 2 + 1
+        try:
+            wh.wh(path0, eta, cue_vectors=cv, outcome_vectors=ov, method=job["impl"],
+                  n_jobs=job.get("n_jobs", 2), n_outcomes_per_job=job.get("n_outcomes_per_job", 2),
+                  remove_duplicates=pol, temporary_directory=wd, events_per_temporary_file=job.get("per", 10000000))
+        except Exception:       # noqa
+            pass
+        for da, vals in kept:
+            da.values[...] = vals
         earlier_done = True
 
     def go():
